@@ -55,7 +55,7 @@ PROFILES = {
     "C09": {"proppatch": 12, "lock": 6, "reupload": 8, "delete": 9, "untyped": 0.45, "len": 36, "put": 40,
             "get": 8, "manynames": True},
     "C14": {"invalid": 0.3, "reupload": 16, "put": 40, "grammar": 0.65, "ctparams": 0.6},
-    "C15": {"proppatch": 45, "restart": 8, "mk": 6, "delcoll": 3, "put": 12, "propheavy": True},
+    "C15": {"proppatch": 45, "restart": 8, "mk": 6, "delcoll": 3, "put": 12, "propheavy": True, "propsingle": 0.4},
     "C16": {"mk": 8, "delcoll": 5, "post": 10},
     "C17": {"multiget": 22, "delete": 12},
 }
@@ -215,18 +215,21 @@ def run_random_session(seed, prof, frontend="wsgi", prefix="/", backend="tree", 
                          "addressbook": ["abcolor", "abdesc"]}.get(kind, [])
                 if rng.random() < 0.1:
                     cand = ["calcolor", "abdesc", "order"]
-                p = rng.choice(cand)
-                if rng.random() < 0.2:
-                    v = None
-                elif p in ("calcolor", "abcolor"):
-                    v = rng.choice(COLORS)
-                elif p == "order":
-                    v = str(rng.randint(0, 99))
-                elif prof.get("propheavy"):
-                    v = gen_value(rng, allow_semicolon=backend in ("tree", "bare"))
-                else:
-                    v = rng.choice(PROP_VALUES)
-                s.proppatch(c, p, v)
+                def value_for(p):
+                    if rng.random() < 0.2:
+                        return None
+                    if p in ("calcolor", "abcolor"):
+                        return rng.choice(COLORS)
+                    if p == "order":
+                        return str(rng.randint(0, 99))
+                    if prof.get("propheavy"):
+                        return gen_value(rng, allow_semicolon=backend in ("tree", "bare"))
+                    return rng.choice(PROP_VALUES)
+                # one instruction, or (as calendar clients do) several in one request: in document
+                # order, sometimes with the same property twice
+                k = 1 if rng.random() < prof.get("propsingle", 0.6) else rng.randint(2, 4)
+                ps = [rng.choice(cand) for _ in range(k)] if rng.random() < 0.3 else rng.sample(cand, min(k, len(cand)))
+                s.propupdate(c, [(p, value_for(p)) for p in ps])
             elif op == "restart":
                 s.restart()
             elif op == "lock":
